@@ -5,8 +5,8 @@
 (*                all return types                                                                            *)
 (*   -simulate  : long signatures (up to 32 arguments) drawn from "themes" that exhaust one register file,    *)
 (*                or mix 4/8/16-byte stack arguments so that 16-byte arguments land after odd slots           *)
-EXTENDS ABI
-CONSTANTS MaxArgs, Long
+EXTENDS ABI, Json
+CONSTANTS MaxArgs, Long, Reduced
 
 Envs == {"x64-sysv", "x64-win", "x86-sysv", "x86-win", "a64-aapcs", "a64-apple"}
 Convs == {"cdecl", "stdcall", "fastcall", "vectorcall", "thiscall", "regparm1", "regparm2", "regparm3",
@@ -22,7 +22,15 @@ Targets ==
 
 X86Types == {"i8", "u16", "i32", "i64", "u64", "f32", "f64", "f32x4", "i32x4", "f64x4", "f32x16", "i32x2", "mmx64", "k16"}
 A64Types == {"i8", "u16", "i32", "i64", "f32", "f64", "f32x4", "i8x16", "i32x2", "f32x2", "i8x4"}
-TypesOf(env) == IF env \in {"a64-aapcs", "a64-apple"} THEN A64Types ELSE X86Types
+ReducedTypes == {"i32", "i64", "f32", "f64", "f32x4", "i8"}
+TypesOf(env) == IF Reduced THEN ReducedTypes ELSE IF env \in {"a64-aapcs", "a64-apple"} THEN A64Types ELSE X86Types
+Rep(t, k) == [q \in 1..k |-> t]
+(* prefixes that fill the register files (and the positional slots) so that the enumerated suffix lands on the stack *)
+Prefixes(env) ==
+  IF Reduced \/ Long THEN { <<>> }
+  ELSE IF env \in {"x64-sysv", "x64-win"} THEN { <<>>, Rep("i64", 4), Rep("i64", 6), Rep("f64", 8), Rep("i64", 6) \o Rep("f64", 8), Rep("f32", 9) }
+  ELSE IF env \in {"x86-sysv", "x86-win"} THEN { <<>>, Rep("i32", 3), <<"f32">> }
+  ELSE { <<>>, Rep("i64", 8), Rep("f64", 8), Rep("i64", 8) \o Rep("f64", 8), Rep("i32", 9) }
 RetTypes(env) == TypesOf(env) \cup {"u8", "i16", "u32", "f64x2", "f32x8"}
 
 Themes == [ ints |-> {"i32", "i64", "i8"}, fps |-> {"f32", "f64"}, vecs |-> {"f32x4", "f64", "i64"},
@@ -30,13 +38,14 @@ Themes == [ ints |-> {"i32", "i64", "i8"}, fps |-> {"f32", "f64"}, vecs |-> {"f3
             small |-> {"i8", "u16", "f32", "i32x2"} ]
 ThemeNames == DOMAIN Themes
 
-VARIABLES tgt, args, va, ret, theme
-vars == <<tgt, args, va, ret, theme>>
+VARIABLES tgt, args, va, ret, theme, k
+vars == <<tgt, args, va, ret, theme, k>>
 
-VaChoices(env) == IF env = "a64-apple" THEN {255, 0, 1, 2, 3} ELSE {255, 1}
+VaChoices(env) == IF env = "a64-apple" THEN {255, 0, 1, 2, 9} ELSE {255, 1}
 
 Init == /\ tgt \in Targets
-        /\ args = <<>>
+        /\ args \in Prefixes(tgt[1])
+        /\ k = 0
         /\ va \in VaChoices(tgt[1])
         /\ ret \in (IF Long THEN {"void"} ELSE {"void"} \cup RetTypes(tgt[1]))
         /\ theme \in (IF Long THEN ThemeNames ELSE {"ints"})
@@ -44,12 +53,13 @@ Init == /\ tgt \in Targets
 
 Allowed == IF Long THEN Themes[theme] \cap (TypesOf(tgt[1]) \cup {"i16", "f32x16", "f64x4"}) ELSE TypesOf(tgt[1])
 
-Next == /\ Len(args) < MaxArgs
+Next == /\ k < MaxArgs
         /\ ret = "void"
         /\ \E t \in Allowed : args' = Append(args, t)
+        /\ k' = k + 1
         /\ UNCHANGED <<tgt, va, ret, theme>>
 Spec == Init /\ [][Next]_vars
 
 Emit == (va = 255 \/ va <= Len(args)) /\ (Long => Len(args) >= 5)
-Export == Emit => PrintT(<<"SIG", tgt[1], tgt[2], va, ret, args>>)
+Export == Emit => PrintT(ToJson(<<"SIG", tgt[1], tgt[2], va, ret, args>>))
 =============================================================================
